@@ -453,12 +453,23 @@ def check_property(pid, tier):
             groups.setdefault((o["crate"], f, tuple(o["kani_flags"])), []).append(o)
     results = {}  # (name, feat) -> result
     solver_time = 0.0
-    for (crate, feat, _flags), gl in sorted(groups.items()):
+    glist = sorted(groups.items())
+    total_h = max(1, sum(len(g) for _, g in glist))
+    from concurrent.futures import ThreadPoolExecutor
+
+    def run_one(item):
+        (crate, feat, _flags), gl = item
         log("[%s] kani: crate=%s features=%s harnesses=%d" % (pid, crate, feat, len(gl)))
-        res, dt, out = run_group(pid, tier, crate, feat, gl, jobs)
-        for n, r in res.items():
-            results[(n, feat)] = r
-            solver_time += r["time_s"] or 0.0
+        share = jobs if len(glist) == 1 else max(2, (jobs * len(gl)) // total_h)
+        res, dt, out = run_group(pid, tier, crate, feat, gl, share)
+        return feat, res
+
+    # the (crate x configuration) groups are independent builds: run them side by side
+    with ThreadPoolExecutor(max_workers=max(1, min(3, len(glist)))) as ex:
+        for feat, res in ex.map(run_one, glist):
+            for n, r in res.items():
+                results[(n, feat)] = r
+                solver_time += r["time_s"] or 0.0
 
     byname = {o["name"]: o for o in obls}
     undecided = []
